@@ -411,3 +411,338 @@ Proof.
   now apply fw_conv_total_sorted.
 Qed.
 Print Assumptions unsetup_inverts_setup_real_sorted.
+
+(* ================================================================================================
+   The COMMAND LIST (observe_at: command list returned by eups.app.setup).  Model/SetupCmds.v: the two eups
+   processes compute the states st1 (setup X) and st2 (unsetup X, started from the environment of st1);
+   app.setup turns each into commands against the environment its process started with (the emitter of
+   Model/Shell.v: an emptied variable is exported empty, a variable that is gone is unset), and ONE shell that
+   started with the environment before sources both texts.
+   The shell then holds, variable for variable, the environment the unsetup process computed - so every clause
+   of unsetup_inverts_setup_partial holds of the SHELL: the path variables are back to the same duplicate-free
+   lists, every variable no reachable product owns has the value (or the absence) it had.
+   cmds_in_claim: the hypotheses of C05 at both calls, and neither call removes EUPS_DIR / EUPS_PATH /
+   EUPS_PKGROOT / EUPS_SHELL (which app.setup refuses to unset).
+   ================================================================================================ *)
+From Eupsv Require Import Model.SetupCmds Proofs.SetupCmds.
+
+Theorem unsetup_commands_restore_the_shell w cfg dl rank fuel st ds1 ds2 name just ok1 st1 r1 ok2 st2 r2 :
+  WF2 w dl rank -> nodollar_paths w (s_env st) -> Inv w (s_env st) ->
+  (forall n, touches w (levels cfg 0 just) name n -> find_setup_product w (s_env st) n = None) ->
+  setup w cfg fuel st ds1 name true 0 just = RDone ok1 st1 r1 ->
+  setup w cfg fuel st1 ds2 name false 0 just = RDone ok2 st2 r2 ->
+  (forall n, touches w (levels cfg 0 just) name n -> find_setup_product w (s_env st2) n = None) ->
+  cmds_in_claim (s_env st) st1 st2 = true ->
+  exists sh, shell_after (s_env st) st1 st2 = Ok sh /\
+    (forall k, alookup k sh = alookup k (s_env st2)) /\
+    (forall var (own : str -> bool), path_var w var ->
+       (forall v, own v = true <-> exists n, touches w (levels cfg 0 just) name n /\ own_elem w n var v) ->
+       uniq (elems (dl var) (oldv var sh)) = uniq (elems (dl var) (oldv var (s_env st)))) /\
+    (forall k, ~ path_var w k -> (forall n, touches w (levels cfg 0 just) name n -> ~ own_var w n k) ->
+       alookup k sh = alookup k (s_env st)).
+Proof.
+  intros H Hnd HI Hb R1 R2 Ha Hc.
+  destruct (shell_follows_commands (s_env st) st1 st2 Hc) as [sh [Hs He]].
+  destruct (unsetup_inverts_setup_partial w cfg dl rank fuel st ds1 ds2 name just ok1 st1 r1 ok2 st2 r2
+              H Hnd HI Hb R1 R2 Ha) as [P [V _]].
+  exists sh. split; [exact Hs|]. split; [exact He|]. split.
+  - intros var own Hv Ho. rewrite (oldv_equiv var sh (s_env st2) He). now apply (P var own).
+  - intros k Hk Hn. rewrite He. now apply V.
+Qed.
+Print Assumptions unsetup_commands_restore_the_shell.
+
+(* the hypotheses are inhabited, and the clause a command list that forgets the emptied variables would break
+   is visible: the world of Proofs/SetupExample.v, the user's environment holding PATH only.  After setup app and
+   unsetup app the unsetup process has TEXINPUTS (which did not exist before) with the EMPTY value; the text of
+   the unsetup exports it empty, and the shell ends with exactly the bindings of the unsetup process. *)
+Definition cx_st0 : state := {| s_env := [(lit "PATH", lit "/usr/bin")]; s_aliases := [] |}.
+
+Example unsetup_commands_restore_the_shell_inhabited :
+  exists st1 st2 sh,
+    setup ex_world ex_cfg 10 cx_st0 ex_ds (lit "app") true 0 false = RDone true st1 [] /\
+    setup ex_world ex_cfg 10 st1 [] (lit "app") false 0 false = RDone true st2 [] /\
+    cmds_in_claim (s_env cx_st0) st1 st2 = true /\
+    shell_after (s_env cx_st0) st1 st2 = Ok sh /\
+    alookup (lit "TEXINPUTS") (s_env st1) = Some (lit "/s/base/2.0/tex;/s/libb/1.0/tex") /\
+    alookup (lit "TEXINPUTS") (s_env st2) = Some [] /\
+    alookup (lit "TEXINPUTS") sh = Some [] /\
+    alookup (lit "PATH") sh = Some (lit "/usr/bin") /\
+    alookup (lit "SETUP_APP") sh = None.
+Proof.
+  eexists. eexists. eexists.
+  split; [vm_compute; reflexivity|]. split; [vm_compute; reflexivity|]. split; [vm_compute; reflexivity|].
+  split; [vm_compute; reflexivity|]. repeat split; vm_compute; reflexivity.
+Qed.
+Print Assumptions unsetup_commands_restore_the_shell_inhabited.
+
+(* ================================================================================================
+   Table values that refer to OTHER variables (Proofs/SetupRefsExample.v).
+   ================================================================================================ *)
+From Eupsv Require Import Proofs.SetupRefsExample.
+
+(* ---- finding D60 (open): outside nodollar_paths the statement is false ----
+   tool 1.0: setupRequired(kit), envSet(TOOL_PLUGINS, KIT_DIR/plugins), envPrepend(PATH, KIT_DIR/tools).  The
+   unsetup runs the table in table order: kit is unset up first, KIT_DIR is gone when the envPrepend line is
+   reversed, its value can no longer be expanded and the literal text is removed - which removes nothing:
+   /s/kit/1.0/tools stays in PATH.  (The envSet line is taken back: its reverse does not look at the value.)
+   The theorems above carry WF2, whose base WF (Proofs/SetupFrame.v: wf_path, wf_set) says that every path and
+   envSet value of the world is free of references: it excludes such a table (last clause). *)
+Example dep_variable_after_dependency_refuted :
+  exists st1 st2,
+    setup rx_world rx_cfg 10 rx_st0 rx_ds1 (lit "tool") true 0 false = RDone true st1 [] /\
+    setup rx_world rx_cfg 10 st1 [] (lit "tool") false 0 false = RDone true st2 [] /\
+    alookup (lit "PATH") (s_env rx_st0) = Some (lit "/usr/bin") /\
+    alookup (lit "PATH") (s_env st1) = Some (lit "/s/kit/1.0/tools:/s/kit/1.0/bin:/usr/bin") /\
+    alookup (lit "TOOL_PLUGINS") (s_env st1) = Some (lit "/s/kit/1.0/plugins") /\
+    alookup (lit "PATH") (s_env st2) = Some (lit "/s/kit/1.0/tools:/usr/bin") /\
+    alookup (lit "TOOL_PLUGINS") (s_env st2) = None /\
+    find_setup_product rx_world (s_env st2) (lit "kit") = None /\
+    forall dl, ~ WF rx_world dl.
+Proof.
+  eexists. eexists.
+  split; [vm_compute; reflexivity|]. split; [vm_compute; reflexivity|].
+  repeat (split; [vm_compute; reflexivity|]).
+  intros dl N.
+  assert (Hin : In (nth 2 rx_world (rx_kit "1.0")) rx_world) by (vm_compute; tauto).
+  destruct (wf_path N _ false (lit "PATH") (lit "${KIT_DIR}/tools") rx_colon Hin) as [_ [E _]].
+  - vm_compute. tauto.
+  - vm_compute in E. discriminate E.
+Qed.
+Print Assumptions dep_variable_after_dependency_refuted.
+
+(* a reference to a variable of the user's environment that holds a LIST in the delimiter of the command:
+   envAppend(PLUGIN_PATH, SITE_DIRS, semicolon) with SITE_DIRS = /site/a;/site/b.  setup expands the value and adds
+   the two elements; unsetup expands the value again (SITE_DIRS is still defined) and removes the two elements *)
+Example list_valued_reference_round_trip :
+  exists st1 st2,
+    setup rx_world rx_cfg 10 rx_st0 [Some (lit "1.0")] (lit "site") true 0 false = RDone true st1 [] /\
+    setup rx_world rx_cfg 10 st1 [] (lit "site") false 0 false = RDone true st2 [] /\
+    alookup (lit "PLUGIN_PATH") (s_env st1) = Some (lit "/pre;/site/a;/site/b") /\
+    s_env st2 = s_env rx_st0.
+Proof.
+  eexists. eexists. split; [vm_compute; reflexivity|]. split; [vm_compute; reflexivity|].
+  split; vm_compute; reflexivity.
+Qed.
+Print Assumptions list_valued_reference_round_trip.
+
+(* the general statements behind the example.  The value v of an envPrepend / envAppend line is a reference to a
+   variable the product does not define (so it expands to the same text x at setup and at unsetup), and x is a LIST
+   in the delimiter of the command (clean_list: no reference left in it, no empty part).  Then
+   - setup leaves every element of the list in the variable (and every element that was there),
+   - unsetup leaves NO element of the list in the variable and keeps every other element:
+   the whole expansion is split, in both modes - not the value before it is expanded. *)
+From Eupsv Require Import Proofs.SetupRefs.
+
+Theorem setup_adds_every_element_of_a_list_valued_reference ap (var v x : str) d e :
+  wf_delim d = true -> mem_ascii d v = false -> expand_var e v = Ok (Some x) -> clean_list d x ->
+  no_dollar (oldv var e) = true ->
+  exists e', env_prepend ap true var v d e = Ok (Some e') /\
+    (forall y, In y (elems d (oldv var e')) <-> In y (elems d (oldv var e)) \/ In y (elems d x)) /\
+    (forall k, k <> var -> alookup k e' = alookup k e).
+Proof.
+  intros Hd Hv Hx Hc Ho. destruct (env_prepend_list ap true var v x d e Hd Hv Hx Hc Ho) as [e' [H1 [H2 [_ H4]]]].
+  exists e'. split; [exact H1|]. split; [|exact H4]. intros y. rewrite H2. apply many_list_forward_In.
+Qed.
+Print Assumptions setup_adds_every_element_of_a_list_valued_reference.
+
+Theorem unsetup_removes_every_element_of_a_list_valued_reference ap (var v x : str) d e :
+  wf_delim d = true -> mem_ascii d v = false -> expand_var e v = Ok (Some x) -> clean_list d x ->
+  no_dollar (oldv var e) = true ->
+  exists e', env_prepend ap false var v d e = Ok (Some e') /\
+    (forall y, In y (elems d (oldv var e')) <-> In y (elems d (oldv var e)) /\ ~ In y (elems d x)) /\
+    (forall k, k <> var -> alookup k e' = alookup k e).
+Proof.
+  intros Hd Hv Hx Hc Ho. destruct (env_prepend_list ap false var v x d e Hd Hv Hx Hc Ho) as [e' [H1 [H2 [_ H4]]]].
+  exists e'. split; [exact H1|]. split; [|exact H4]. intros y. rewrite H2. apply many_list_reverse_In.
+Qed.
+Print Assumptions unsetup_removes_every_element_of_a_list_valued_reference.
+
+(* setup then unsetup of such a line, the referenced variable being another one than the path variable (so that the
+   line itself does not change it): the elements that were there before and are not in the list are exactly the
+   elements afterwards *)
+Theorem list_valued_reference_is_taken_back ap (var v x : str) d e e1 :
+  wf_delim d = true -> mem_ascii d v = false -> expand_var e v = Ok (Some x) -> clean_list d x ->
+  no_dollar (oldv var e) = true ->
+  env_prepend ap true var v d e = Ok (Some e1) -> expand_var e1 v = Ok (Some x) ->
+  exists e2, env_prepend ap false var v d e1 = Ok (Some e2) /\
+    (forall y, In y (elems d (oldv var e2)) <-> In y (elems d (oldv var e)) /\ ~ In y (elems d x)) /\
+    (forall k, k <> var -> alookup k e2 = alookup k e).
+Proof.
+  intros Hd Hv Hx Hc Ho H1 Hx1.
+  destruct (env_prepend_list ap true var v x d e Hd Hv Hx Hc Ho) as [e1' [G1 [G2 [G3 G4]]]].
+  rewrite H1 in G1. injection G1 as <-.
+  destruct (env_prepend_list ap false var v x d e1 Hd Hv Hx1 Hc G3) as [e2 [K1 [K2 [_ K4]]]].
+  exists e2. split; [exact K1|]. split.
+  - intros y. rewrite K2, many_list_reverse_In, G2, many_list_forward_In. tauto.
+  - intros k Hk. rewrite (K4 k Hk). now apply G4.
+Qed.
+Print Assumptions list_valued_reference_is_taken_back.
+
+(* ================================================================================================
+   SEVERAL STACKS ON EUPS_PATH  (Model/SetupMS.v; see the section of the same title in Props/C01.v)
+   ================================================================================================ *)
+From Eupsv Require Import Model.SetupMS Proofs.SetupMSFrame Proofs.SetupMSInv Proofs.SetupMSStack
+     Model.SetupMSWf Proofs.SetupMSWf.
+
+Theorem ms_failed_setup_changes_nothing w cfg fuel st ds name fwd just :
+  (forall st' ds', msetup w cfg fuel st ds name fwd 0 just <> MDone true st' ds') ->
+  mrequest w cfg fuel st ds name fwd just = Ok None \/
+  exists e, mrequest w cfg fuel st ds name fwd just = Err e.
+Proof.
+  intro H. unfold mrequest. destruct (msetup w cfg fuel st ds name fwd 0 just) as [[|] st' ds'|st' ds'| |] eqn:E.
+  - exfalso. now apply (H st' ds').
+  - now left.
+  - now left.
+  - right. now exists OutOfFuel.
+  - right. now exists Crash.
+Qed.
+Print Assumptions ms_failed_setup_changes_nothing.
+
+Theorem ms_dependency_failure_restores cfg rec fwd depth just o m j acts st ds st' ds' :
+  cut_off cfg just (S depth) = false -> fwd && negb o = false ->
+  (rec st ds m fwd (S depth) j = MDone false st' ds' \/ rec st ds m fwd (S depth) j = MRaise st' ds') ->
+  mrun_actions cfg rec fwd depth just (ASetup o m j :: acts) st ds =
+  mrun_actions cfg rec fwd depth just acts st ds'.
+Proof.
+  intros Hc Ho [E|E]; cbn [mrun_actions]; rewrite Hc, E, Ho; reflexivity.
+Qed.
+Print Assumptions ms_dependency_failure_restores.
+
+Theorem ms_required_failure_propagates cfg rec depth just m j acts st ds st' ds' :
+  cut_off cfg just (S depth) = false ->
+  (rec st ds m true (S depth) j = MDone false st' ds' \/ rec st ds m true (S depth) j = MRaise st' ds') ->
+  mrun_actions cfg rec true depth just (ASetup false m j :: acts) st ds = MRaise st ds'.
+Proof.
+  intros Hc [E|E]; cbn [mrun_actions]; rewrite Hc, E; reflexivity.
+Qed.
+Print Assumptions ms_required_failure_propagates.
+
+(* an unsetup that succeeds leaves no record and no table contribution of ANY declaration of the product, in
+   whatever stack *)
+Theorem ms_unsetup_removes_the_product w cfg dl rank fuel st ds name depth just st' ds' :
+  SetupMSInv.WF2 w dl rank -> SetupMSFrame.nodollar_paths w (s_env st) -> SetupMSFrame.depth_ok cfg depth ->
+  SetupMSInv.Inv w cfg (s_env st) ->
+  msetup w cfg fuel st ds name false depth just = MDone true st' ds' ->
+  mfind_setup_product w (c_flavor cfg) (s_env st') name = None /\
+  forall q, In q w -> mp_name q = name -> SetupMSInv.absent q (s_env st').
+Proof.
+  intros H Hnd Hd HI Hrun.
+  pose proof (SetupMSInv.setup_inv w cfg dl rank H fuel st ds name false depth just Hnd Hd (fun n _ => HI n)) as I0.
+  rewrite Hrun in I0. destruct I0 as [L [U _]].
+  assert (Hs : mfind_setup_product w (c_flavor cfg) (s_env st) name <> None).
+  { destruct fuel; [discriminate|]. cbn [msetup] in Hrun. unfold msetup_step in Hrun.
+    destruct (mfind_setup_product w (c_flavor cfg) (s_env st) name); [discriminate|discriminate]. }
+  pose proof (U eq_refl Hs) as E. split; [now apply SetupMSInv.find_none_when_unset|].
+  intros q Hq Hn. apply (SetupMSInv.all_absent_of_clause w cfg name (s_env st')); [apply L; lia|assumption|split; assumption].
+Qed.
+Print Assumptions ms_unsetup_removes_the_product.
+
+(* unsetup of a product declared at the same version in two stacks with different tables undoes the table of the
+   stack RECORDED, not of the first stack on the path: whatever else the world declares (a declaration q of the same
+   name and version in another stack, earlier in the world), when SETUP_NAME holds the value written for the
+   declaration p, unsetup executes the actions of p in reverse - and, the invariant holding before, afterwards
+   nothing of p and nothing of q is left *)
+Theorem unsetup_looks_in_recorded_stack w cfg dl rank fuel st ds depth just p :
+  SetupMSInv.WF2 w dl rank -> In p w ->
+  alookup (setup_var (mp_name p)) (s_env st) = Some (ms_setup_string p) ->
+  mfind_setup_product w (c_flavor cfg) (s_env st) (mp_name p) = Some p /\
+  msetup w cfg (S fuel) st ds (mp_name p) false depth just =
+  mrun_actions cfg (msetup w cfg fuel) false depth just (mp_actions p) (unset_product_vars st (mp_name p)) ds /\
+  (forall q, In q w -> mp_name q = mp_name p -> mp_version q = mp_version p -> mp_root q <> mp_root p ->
+     mfind_setup_product w (c_flavor cfg) (s_env st) (mp_name p) <> Some q) /\
+  (SetupMSFrame.nodollar_paths w (s_env st) -> SetupMSFrame.depth_ok cfg depth -> SetupMSInv.Inv w cfg (s_env st) ->
+   forall st' ds', msetup w cfg (S fuel) st ds (mp_name p) false depth just = MDone true st' ds' ->
+   forall q, In q w -> mp_name q = mp_name p -> SetupMSInv.absent q (s_env st')).
+Proof.
+  intros H Hin E.
+  pose proof (recorded_product_found w dl rank (c_flavor cfg) (s_env st) p H Hin E) as Hf.
+  split; [exact Hf|]. split; [cbn [msetup]; now apply (unsetup_step_recorded w cfg dl rank)|]. split.
+  - intros q Hq Hn Hv Hr Hfq. rewrite Hf in Hfq. injection Hfq as ->. now apply Hr.
+  - intros Hnd Hd HI st' ds' Hrun q Hq Hn.
+    exact (proj2 (ms_unsetup_removes_the_product w cfg dl rank (S fuel) st ds (mp_name p) depth just st' ds' H Hnd Hd HI Hrun) q Hq Hn).
+Qed.
+Print Assumptions unsetup_looks_in_recorded_stack.
+
+(* setup then unsetup, for every resolver, as unsetup_inverts_setup_partial above *)
+Theorem ms_unsetup_inverts_setup_partial w cfg dl rank fuel st ds1 ds2 name just ok1 st1 r1 ok2 st2 r2 :
+  SetupMSInv.WF2 w dl rank -> SetupMSFrame.nodollar_paths w (s_env st) -> SetupMSInv.Inv w cfg (s_env st) ->
+  (forall n, SetupMSFrame.touches w (SetupMSFrame.levels cfg 0 just) name n -> mfind_setup_product w (c_flavor cfg) (s_env st) n = None) ->
+  msetup w cfg fuel st ds1 name true 0 just = MDone ok1 st1 r1 ->
+  msetup w cfg fuel st1 ds2 name false 0 just = MDone ok2 st2 r2 ->
+  (forall n, SetupMSFrame.touches w (SetupMSFrame.levels cfg 0 just) name n -> mfind_setup_product w (c_flavor cfg) (s_env st2) n = None) ->
+  (forall var (own : str -> bool), SetupMSFrame.path_var w var ->
+     (forall v, own v = true <-> exists n, SetupMSFrame.touches w (SetupMSFrame.levels cfg 0 just) name n /\ SetupMSFrame.own_elem w n var v) ->
+     uniq (elems (dl var) (oldv var (s_env st2))) = uniq (elems (dl var) (oldv var (s_env st)))) /\
+  (forall k, ~ SetupMSFrame.path_var w k -> (forall n, SetupMSFrame.touches w (SetupMSFrame.levels cfg 0 just) name n -> ~ SetupMSFrame.own_var w n k) ->
+     alookup k (s_env st2) = alookup k (s_env st)) /\
+  (forall n q, SetupMSFrame.touches w (SetupMSFrame.levels cfg 0 just) name n -> In q w -> mp_name q = n -> SetupMSInv.absent q (s_env st2)).
+Proof.
+  intros H Hnd HI Hbefore Hrun1 Hrun2 Hafter.
+  assert (Hd : SetupMSFrame.depth_ok cfg 0) by (unfold SetupMSFrame.depth_ok; destruct (c_max_depth cfg); lia).
+  destruct (SetupMSInv.setup_preserves_Inv w cfg dl rank H fuel st ds1 name true 0 just ok1 st1 r1 Hnd Hd HI Hrun1) as [I1 D1].
+  destruct (SetupMSInv.setup_preserves_Inv w cfg dl rank H fuel st1 ds2 name false 0 just ok2 st2 r2 D1 Hd I1 Hrun2) as [I2 D2].
+  pose proof (SetupMSFrame.setup_frame w cfg dl (SetupMSInv.wf_base w dl rank H) fuel st ds1 name true 0 just Hnd Hd) as G1.
+  pose proof (SetupMSFrame.setup_frame w cfg dl (SetupMSInv.wf_base w dl rank H) fuel st1 ds2 name false 0 just D1 Hd) as G2.
+  rewrite Hrun1 in G1. rewrite Hrun2 in G2. destruct G1 as [F1 _]. destruct G2 as [F2 _].
+  pose proof (SetupMSFrame.env_frame_trans w dl _ _ _ _ F1 F2) as F. destruct F as [V P].
+  assert (Habs : forall e, SetupMSInv.Inv w cfg e ->
+                 (forall n, SetupMSFrame.touches w (SetupMSFrame.levels cfg 0 just) name n -> mfind_setup_product w (c_flavor cfg) e n = None) ->
+                 forall n q, SetupMSFrame.touches w (SetupMSFrame.levels cfg 0 just) name n -> In q w -> mp_name q = n -> SetupMSInv.absent q e).
+  { intros e HIe Hnone n q Hn Hq Hqn. pose proof (HIe n) as C. unfold SetupMSInv.clause in C. rewrite (Hnone n Hn) in C.
+    apply C. split; assumption. }
+  split; [|split].
+  - intros var own Hv Hown.
+    assert (Hfil : forall e, SetupMSInv.Inv w cfg e ->
+                   (forall n, SetupMSFrame.touches w (SetupMSFrame.levels cfg 0 just) name n -> mfind_setup_product w (c_flavor cfg) e n = None) ->
+                   filter (fun x => negb (own x)) (elems (dl var) (oldv var e)) = elems (dl var) (oldv var e)).
+    { intros e HIe Hnone. apply SetupMSInv.forallb_filter_id. apply forallb_forall. intros x Hx.
+      destruct (own x) eqn:Ex; [|reflexivity]. exfalso.
+      apply Hown in Ex. destruct Ex as [n [Hn [q [ap [d [Hq Ha]]]]]].
+      destruct (Habs e HIe Hnone n q Hn (proj1 Hq) (proj2 Hq)) as [A _].
+      apply (A ap var x d Ha).
+      destruct (SetupMSFrame.wf_path (SetupMSInv.wf_base w dl rank H) q ap var x d (proj1 Hq) Ha) as [_ [_ ->]]. exact Hx. }
+    rewrite <- (Hfil (s_env st2) I2 Hafter), <- (Hfil (s_env st) HI Hbefore).
+    apply P; [assumption|]. intros n v Hn Ho. apply negb_false_iff. apply Hown. exists n. split; assumption.
+  - intros k Hk Hno. now apply V.
+  - intros n q Hn Hq Hqn. now apply (Habs (s_env st2) I2 Hafter n q).
+Qed.
+Print Assumptions ms_unsetup_inverts_setup_partial.
+
+(* ---- inhabited: ms_world (Proofs/SetupMSStack.v), lib 1.0 declared in both stacks, the first stack's declaration
+   first in the world.  From ms_stB (lib 1.0 set up from the SECOND stack) unsetup lib removes the second stack's
+   path element, variable and record and ends in ms_stNone; had it looked in the first stack on the path it would
+   have tried to remove /sA/Linux64/lib/1.0/bin and left /s B/generic/lib/1.0/bin2 in PATH. *)
+Example ms_c02_inhabited :
+  SetupMSInv.WF2 ms_world (mdl_of ms_world) (mrank_of ms_order) /\
+  In ms_libA ms_world /\ In ms_libB ms_world /\ mp_version ms_libA = mp_version ms_libB /\ mp_root ms_libA <> mp_root ms_libB /\
+  alookup (setup_var (lit "lib")) (s_env ms_stB) = Some (ms_setup_string ms_libB) /\
+  msetup ms_world ms_cfg 3 ms_st0 [Some (key_of ms_libB)] (lit "lib") true 0 false = MDone true ms_stB [] /\
+  msetup ms_world ms_cfg 3 ms_stB [] (lit "lib") false 0 false = MDone true ms_stNone [].
+Proof.
+  split; [apply SetupMSWf.wf2_check_sound; vm_compute; reflexivity|].
+  split; [cbn; tauto|]. split; [cbn; tauto|]. split; [reflexivity|]. split; [discriminate|].
+  split; [vm_compute; reflexivity|]. split; vm_compute; reflexivity.
+Qed.
+Print Assumptions ms_c02_inhabited.
+
+(* ---- the hypothesis root_ok of WF2 (wf_words) is needed, in the model as in the code ----
+   a stack whose root has the characters minus plus in front of a blank: Eups.setup writes the blank as the marker
+   minus plus minus, findSetupVersion reads the marker one character too early and gets another path; the product
+   is set up, and unsetup does not find it (in the code: OSError for the decoded path, observed on the real run of
+   proposed_fixes/C02-stack-root-marker-ambiguity.witness.json) - so setup followed by unsetup does not restore
+   the environment.  No change of utils.decodePath alone can repair this: the roots a-+ b and a +-b are written
+   the same. *)
+Definition rm_lib : mproduct :=
+  {| mp_name := lit "lib"; mp_version := lit "1.0"; mp_root := lit "/a-+ b"; mp_flavor := lit "Linux64";
+     mp_dir := lit "/a-+ b/Linux64/lib/1.0";
+     mp_actions := [ASet (lit "LIB_HOME") (lit "/a-+ b/Linux64/lib/1.0/home")] |}.
+
+Example unsetup_root_marker_refuted :
+  encode_path (lit "/a-+ b") = encode_path (lit "/a +-b") /\
+  exists st1,
+    msetup [rm_lib] ms_cfg 3 ms_st0 [Some (key_of rm_lib)] (lit "lib") true 0 false = MDone true st1 [] /\
+    alookup (lit "SETUP_LIB") (s_env st1) = Some (lit "lib 1.0 -f Linux64 -Z /a-+-+-b") /\
+    msetup [rm_lib] ms_cfg 3 st1 [] (lit "lib") false 0 false = MDone false st1 [].
+Proof. split; [vm_compute; reflexivity|]. eexists. split; [vm_compute; reflexivity|]. split; vm_compute; reflexivity. Qed.
+Print Assumptions unsetup_root_marker_refuted.
+
